@@ -14,7 +14,7 @@ class LitePreKeyStore(PreKeyStore):
                        "prekey_id INTEGER UNIQUE, sent_to_server BOOLEAN, record BLOB);")
 
     def loadPreKey(self, preKeyId):
-        q = "SELECT record FROM prekeys WHERE prekey_id = ?"
+        q = "SELECT record FROM prekeys WHERE prekey_id = ? AND record IS NOT NULL"
 
         cursor = self.dbConn.cursor()
         cursor.execute(q, (preKeyId,))
@@ -26,7 +26,7 @@ class LitePreKeyStore(PreKeyStore):
         return PreKeyRecord(serialized = result[0])
 
     def loadUnsentPendingPreKeys(self):
-        q = "SELECT record FROM prekeys WHERE sent_to_server is NULL or sent_to_server = ?"
+        q = "SELECT record FROM prekeys WHERE (sent_to_server is NULL or sent_to_server = ?) AND record IS NOT NULL"
 
         cursor = self.dbConn.cursor()
         cursor.execute(q, (0,))
@@ -49,7 +49,7 @@ class LitePreKeyStore(PreKeyStore):
         self.dbConn.commit()
 
     def loadPendingPreKeys(self):
-        q = "SELECT record FROM prekeys"
+        q = "SELECT record FROM prekeys WHERE record IS NOT NULL"
         cursor = self.dbConn.cursor()
         cursor.execute(q)
         result = cursor.fetchall()
@@ -65,13 +65,15 @@ class LitePreKeyStore(PreKeyStore):
         self.dbConn.commit()
 
     def containsPreKey(self, preKeyId):
-        q = "SELECT record FROM prekeys WHERE prekey_id = ?"
+        q = "SELECT record FROM prekeys WHERE prekey_id = ? AND record IS NOT NULL"
         cursor = self.dbConn.cursor()
         cursor.execute(q, (preKeyId,))
         return cursor.fetchone() is not None
 
     def removePreKey(self, preKeyId):
-        q = "DELETE FROM prekeys WHERE prekey_id = ?"
+        # the key material goes, the row stays: ids are handed out from max(prekey_id) + 1, and the id of a key that
+        # was consumed must never be given to a different key (the server and peers may still refer to it)
+        q = "UPDATE prekeys SET record = NULL WHERE prekey_id = ?"
         cursor = self.dbConn.cursor()
         cursor.execute(q, (preKeyId,))
         self.dbConn.commit()
